@@ -17,9 +17,11 @@ A *case* is a history over two registry instances and up to three threads:
     ("read", t, h)          SpanTrace::with_spans / span(id).scope() through the handle's own dispatch
     ("pdrop", t, h)         the handle is dropped while a (contained) panic unwinds          (model: drop)
     ("hold", t, k, h) ("poke", t, k) ("release", t, k)
-                            keep a SpanRef (slab guard) obtained by `registry.span(&id)` across other operations, write an
-                            extension through it, drop it.  Histories with these ops ("guards" mode) are judged by the
-                            oracle only: Registry/Model.v has no slab guards.
+    ("peek", t, k)          keep a SpanRef (slab guard) obtained by `registry.span(&id)` across other operations, write an
+                            extension (Note) through it, read it back, drop it ("guards" mode).  Model: OHold_ / OPoke /
+                            OPeek_ / ORelease (Registry/Model.v: deferred clear, phantom parent reference, notes).
+Handle ids are doubled in the Coq terms (odd ids are reserved for the model's phantom references); a DEBUG `new` is preceded
+by `OEnabled t true` (the filtered layer's verdict in the FILTERING thread-local); every `event` is followed by `OFEvent_`.
 A `new` op may carry a 6th component 1 = the span is DEBUG (disabled for the outermost, per-subscriber-filtered layer FRec).
 """
 import json
@@ -34,7 +36,7 @@ sys.path.insert(0, os.path.join(vlib.VERIF, "translators"))
 import registry_shapes as shapes_tr  # noqa: E402
 
 GEN_SHIFT = 51          # sharded_slab DefaultConfig on 64-bit: generation = key >> 51, (tid, address) below
-GUARD_H = 1000          # handle ids of the spans owned by EnteredSpan guards in the model
+GUARD_H = 300           # handle ids of the spans owned by EnteredSpan guards in the model
 
 TRUSTED = ["Coq 8.16.1 kernel + vm_compute",
            "Registry/Model.v (hand-written; tied to sharded.rs / stack.rs / layered.rs by the op-by-op correspondence only)",
@@ -337,7 +339,7 @@ class Gen:
                         del self.handles[hh]
         elif x < 0.7 and held:
             k = r.choice(sorted(held))
-            self.emit("poke", held[k][0], k)
+            self.emit("poke" if r.random() < 0.65 else "peek", held[k][0], k)
         elif held:
             k = r.choice(sorted(held))
             t, inst = held[k]
@@ -412,6 +414,7 @@ class Gen:
                     continue
                 if r.random() < 0.5:
                     self.emit("poke", t, x)
+                    self.emit("peek", t, x)
                 self.emit("release", t, x)
             else:
                 tt = self.pick_thread(inst)
@@ -514,7 +517,15 @@ def norm_impl_obs(o):
         return ("foreignparent",)
     if k == "newgone":
         return ("newgone", o["i"], o["l"], o["q"])
-    return None   # alloc, fevent (the filtered layer's view), hold: harness-only lines, judged by the oracle
+    if k == "fevent":
+        return ("fevent", o["i"], o["cur"], o["espan"], tuple(o["escope"]), tuple(o["efromroot"]))
+    if k == "hold":
+        return ("hold", o["q"])
+    if k == "peek":
+        return ("peek", o["v"])
+    if k == "stalenote":
+        return ("stalenote", o["i"], o["q"], o["v"])
+    return None   # alloc: harness-only
 
 
 def run_impl(ctx, binpath, cases):
@@ -596,7 +607,7 @@ def run_impl(ctx, binpath, cases):
 # model run
 
 def coq_pk(kind, hp):
-    return {"r": "PRoot", "c": "PCtx"}.get(kind) or "(PExplicit %d)" % hp
+    return {"r": "PRoot", "c": "PCtx"}.get(kind) or "(PExplicit %d)" % (2 * hp)
 
 
 def model_ops(case, impl):
@@ -612,33 +623,44 @@ def model_ops(case, impl):
                     if o["k"] == "alloc":
                         key = o["raw"] - 1
                         a = (key & ((1 << GEN_SHIFT) - 1), key >> GEN_SHIFT)
-            groups.append(["ONewSpan %d %d %s (%d%%N, %d%%N)" % (t, h, coq_pk(kind, hp), a[0], a[1])])
+            g = ["ONewSpan %d %d %s (%d%%N, %d%%N)" % (t, 2 * h, coq_pk(kind, hp), a[0], a[1])]
+            if len(op) > 5 and op[5]:
+                g = ["OEnabled %d true" % t] + g
+            groups.append(g)
         elif name == "clone":
-            groups.append(["OClone %d %d %d" % op[1:]])
-        elif name in ("drop", "pdrop"):          # dropped during a contained unwind: the same registry calls
-            groups.append(["ODrop %d %d" % op[1:]])
+            groups.append(["OClone %d %d %d" % (op[1], 2 * op[2], 2 * op[3])])
+        elif name in ("drop", "pdrop", "fdrop"):  # dropped during a contained unwind / with the outermost layer's on_close
+            groups.append(["ODrop %d %d" % (op[1], 2 * op[2])])      # panicking: the same registry calls
         elif name == "enter":
-            groups.append(["OEnter %d %d" % op[1:]])
+            groups.append(["OEnter %d %d" % (op[1], 2 * op[2])])
         elif name == "exit":
             groups.append(["OExit %d %d" % op[1:]])
         elif name == "exith":
-            groups.append(["OExitH %d %d" % op[1:]])
+            groups.append(["OExitH %d %d" % (op[1], 2 * op[2])])
         elif name == "entered":
             _, t, h, g = op
-            groups.append(["OClone %d %d %d" % (t, h, GUARD_H + g), "OEnter %d %d" % (t, GUARD_H + g)])
+            groups.append(["OClone %d %d %d" % (t, 2 * h, 2 * (GUARD_H + g)), "OEnter %d %d" % (t, 2 * (GUARD_H + g))])
         elif name == "dropguard":
             _, t, g = op
-            groups.append(["OExitH %d %d" % (t, GUARD_H + g), "ODrop %d %d" % (t, GUARD_H + g)])
+            groups.append(["OExitH %d %d" % (t, 2 * (GUARD_H + g)), "ODrop %d %d" % (t, 2 * (GUARD_H + g))])
         elif name == "cur":
-            groups.append(["OCurrent %d %d" % (op[1], op[2])])
+            groups.append(["OCurrent %d %d" % (op[1], 2 * op[2])])
         elif name == "event":
-            groups.append(["OEvent_ %d %s" % (op[1], coq_pk(op[2], op[3]))])
+            groups.append(["OEvent_ %d %s" % (op[1], coq_pk(op[2], op[3])), "OFEvent_ %d %s" % (op[1], coq_pk(op[2], op[3]))])
+        elif name == "hold":
+            groups.append(["OHold_ %d %d %d" % (op[1], op[2], 2 * op[3])])
+        elif name == "poke":
+            groups.append(["OPoke %d %d" % op[1:]])
+        elif name == "peek":
+            groups.append(["OPeek_ %d %d" % op[1:]])
+        elif name == "release":
+            groups.append(["ORelease %d %d" % op[1:]])
         elif name == "setdef":
             groups.append(["OSetDef %d %s" % (op[1], "None" if op[2] < 0 else "(Some %d)" % op[2])])
         elif name == "unsetdef":
             groups.append(["OUnsetDef %d" % op[1]])
         elif name == "read":
-            groups.append(["OReadTrace %d %d" % (op[1], op[2])])
+            groups.append(["OReadTrace %d %d" % (op[1], 2 * op[2])])
         else:
             raise ValueError(op)
     return groups
@@ -681,6 +703,14 @@ def norm_model_obs(o, nl=None):
         return ("ill", o[1])
     if c == "ORoute":
         return ("route", o[1], optn(o[2]))
+    if c == "OHold":
+        return ("hold", optn(o[1]))
+    if c == "OPeek":
+        return ("peek", optn(o[1]))
+    if c == "OStaleNote":
+        return ("stalenote", o[1], o[2], o[3])
+    if c == "OFEvent":
+        return ("fevent", o[1], optn(o[2]), optn(o[3]), tuple(o[4]), tuple(o[5]))
     raise ValueError(o)
 
 
@@ -732,6 +762,8 @@ def diff_case(case, impl, model):
     for k in range(len(case["ops"])):
         io = [x for x in (norm_impl_obs(o) for o in iops[k]) if x is not None] if k < len(iops) else []
         mo = mops[k] if k < len(mops) else []
+        io = [x for x in io if x[0] != "stalenote"] + [x for x in io if x[0] == "stalenote"]      # logged before the layer's `new` line
+        mo = [x for x in mo if x[0] != "stalenote"] + [x for x in mo if x[0] == "stalenote"]
         if io != mo:
             return {"case": case["id"], "op_index": k, "op": list(case["ops"][k]), "impl": io, "model": mo, "text": case_text(case)}
     if bool(impl["stopped"]) != bool(model["panicked"]):
@@ -992,6 +1024,8 @@ class Oracle:
                 self.bad("C05", "on_close at layer %d of instance %d could not look the closing span up" % (o[2], o[1]), k)
             elif o[0] == "newgone":
                 self.bad("C05", "on_new_span could not look the new span up", k)
+            elif o[0] == "stalenote":
+                self.bad("C05", "new span %d was born with an extension (%d) that an earlier occupant's guard wrote into its storage" % (o[2], o[3]), k)
 
     def enter(self, q, t):
         s = self.spans[q]
@@ -1237,7 +1271,7 @@ class Oracle:
                 got_all = [o[3] for o in got_objs]
                 got = [q for q in got_all if q not in self.tainted]
                 for o in got_objs:
-                    if o[4] != (900 + o[3] if o[3] in self.poked else o[3]):
+                    if o[4] != o[3]:
                         self.bad("C05", "layer %d closing span %d read extension %s instead of its own data" % (l, o[3], o[4]), k, (o[3],))
                 if got_all == want_all:
                     continue
@@ -1366,11 +1400,9 @@ def run_common(ctx, prop, rep, proof_targets):
     cases = [c for c in cases if c["id"] not in missing]
     ctx.log("implementation ran %d cases" % len(cases))
     # ---- model on the same cases
-    # histories that hold SpanRefs across closes are judged by the oracle only (Registry/Model.v has no slab guards)
-    def oracle_only(c):
-        return any(op[0] in ("hold", "poke", "release") for op in c["ops"])
-    mcases = [c for c in cases if not oracle_only(c)]
-    rep.count("cases:oracle-only (SpanRef held across operations)", len(cases) - len(mcases))
+    mcases = cases
+    rep.count("cases:with slab guards (hold / poke / peek / release), in the correspondence",
+              sum(1 for c in cases if any(op[0] == "hold" for op in c["ops"])))
     model = None
     try:
         model = run_model(ctx, mcases, impl)
@@ -1488,10 +1520,9 @@ def replay_common(ctx, prop, rep, payload, proof_targets):
             continue
         rep.evaluations += 1
         try:
-            if not any(op[0] in ("hold", "poke", "release") for op in c["ops"]):
-                model = run_model(ctx, [c], impl, tag="replay")
-                d = diff_case(c, r, model[c["id"]])
-                rep.tie("correspondence:registry-histories", d is None, "replayed case", d)
+            model = run_model(ctx, [c], impl, tag="replay")
+            d = diff_case(c, r, model[c["id"]])
+            rep.tie("correspondence:registry-histories", d is None, "replayed case", d)
         except Exception as ex:      # noqa: BLE001
             rep.tie("model-eval", False, str(ex)[:300])
         o, fails = oracle_failures(c, r, prop)
